@@ -31,6 +31,7 @@ def Step.WF (cols : List Name) : Step → Prop
   | .replace _ _ sub => ∀ n ∈ sub, n ∈ cols
   | .toDF names => names.length = cols.length ∧ names.Nodup
   | .dropna _ _ sub => (∀ n ∈ sub, n ∈ cols) ∧ "num_nulls" ∉ cols
+  | .unpivot ids vals var val => (∀ n ∈ ids ++ vals, n ∈ cols) ∧ vals ≠ [] ∧ (ids ++ [var, val]).Nodup
 
 instance (cols : List Name) (s : Step) : Decidable (s.WF cols) := by
   cases s <;> unfold Step.WF <;> exact inferInstance
@@ -43,6 +44,7 @@ def StepsWF (T : Table) : List Step → Prop
 /-- steps covered by `C01_partial` (the others are only compared executably: implementation vs `specStep`) -/
 def Step.inTheorem : Step → Bool
   | .dropna _ _ _ => false
+  | .unpivot _ _ _ _ => false
   | _ => true
 
 /-- named scope hypotheses violated by a program (none are open after the `fix:` commits) -/
